@@ -81,6 +81,8 @@ class Bounds:
         self.deps_kinds = None       # restrict the top-level alternatives of the dependency type
         self.deps_inner_kinds = None # ... and those below a `&` / parenthesis
         self.pat_kinds = None        # restrict the alternatives of a parameter pattern (labels of Gen.pattern)
+        self.lifetime_bounds = False # bounds of generic type parameters may also be the lifetime `'a`
+        self.bound_shapes = False    # `impl Trait` dependency bounds also as `ma::B0` / `B0<u8>` (same last segment, different trait)
         self.fixed = {}
         for k, v in kw.items():
             assert hasattr(self, k), k
@@ -108,6 +110,25 @@ class Gen:
 
     def bound(self, name):
         return self.A.bound_trait(self.A.path([self.A.ident(name)]))
+
+    def bound_shaped(self, key, name):
+        """a trait bound of an `impl Trait` dependency; with Bounds.bound_shapes the same last segment also comes as `ma::B0` and
+        `B0<u8>` (different traits that a comparison by last identifier would conflate). Lazily chosen: costs nothing unless the
+        macro (or the oracle) looks inside the path."""
+        if not self.B.bound_shapes:
+            return self.bound(name)
+        A = self.A
+        return choice(key + '.shape', [
+            lambda ex: self.bound(name),
+            lambda ex: A.bound_trait(A.path([A.ident('ma'), A.ident(name)])),
+            lambda ex: A.bound_trait(A.path([A.ident(name)], args_last=A.angle_args([A.type_path_ident(A.ident('u8'))]))),
+        ], ['ident', 'ma::path', 'generic<u8>'])
+
+    def param_bound(self, key, name):
+        """a bound of a generic type parameter: a trait, or (Bounds.lifetime_bounds) the lifetime `'a`"""
+        if not self.B.lifetime_bounds:
+            return self.bound(name)
+        return choice(key + '.kind', [lambda ex: self.bound(name), lambda ex: self.A.bound_lifetime(self.A.lifetime('a'))], ['trait', "'a"])
 
     # ---- attributes ----------------------------------------------------------------
     def attr(self, key, nested=False):
@@ -209,7 +230,7 @@ class Gen:
         # `&impl A + B` is not writable in source (ambiguous `+`): several bounds directly under `&` need parentheses
         nb = 1 if under_ref else B.max_deps_bounds
         add('impl', lambda ex: A.enum('Type', 'ImplTrait', A.node('TypeImplTrait', bounds=sym_punct(
-            key + '.impl', nb, lambda ex2, k, j: self.bound(f'B{j}'), 'Plus', minlen=1))))
+            key + '.impl', nb, lambda ex2, k, j: self.bound_shaped(k, f'B{j}'), 'Plus', minlen=1))))
         add('path2', lambda ex: A.type_path(A.path([A.ident('m'), A.ident('C')])))
         add('path::', lambda ex: A.type_path(A.path([A.ident('C')], leading=True)))
         add('generic-inst', lambda ex: A.type_path(A.path([A.ident('W')], args_last=A.angle_args([self.opaque_type()]))))
@@ -228,7 +249,7 @@ class Gen:
         return choice(key, [
             lambda ex: A.enum('GenericParam', 'Type', A.node(
                 'TypeParam', ident=A.ident(nm), colon_token=Some(Tok('Colon')),
-                bounds=sym_punct(key + '.bounds', self.B.max_deps_bounds, lambda ex2, k, jj: self.bound(f'G{j}{jj}'), 'Plus'),
+                bounds=sym_punct(key + '.bounds', self.B.max_deps_bounds, lambda ex2, k, jj: self.param_bound(k, f'G{j}{jj}'), 'Plus'),
                 eq_token=NONE(), default=NONE())),
             lambda ex: A.generic_lifetime_param(A.lifetime('a' if j == 0 else 'b')),
             lambda ex: A.generic_const_param(A.ident('N' + str(j)), self.opaque_type('usize')),
@@ -255,7 +276,7 @@ class Gen:
         if kind == 'T':
             return A.enum('GenericParam', 'Type', A.node(
                 'TypeParam', ident=A.ident(nm), colon_token=Some(Tok('Colon')),
-                bounds=sym_punct(key + '.bounds', self.B.max_deps_bounds, lambda ex2, k, jj: self.bound(f'G{j}{jj}'), 'Plus'),
+                bounds=sym_punct(key + '.bounds', self.B.max_deps_bounds, lambda ex2, k, jj: self.param_bound(k, f'G{j}{jj}'), 'Plus'),
                 eq_token=NONE(), default=NONE()))
         if kind == 'L':
             return A.generic_lifetime_param(A.lifetime('a' if j == 0 else 'b'))
